@@ -202,8 +202,9 @@ CHECKS["C18"] = dict(
          "of ending (all replies, quorum before all replies, exhaustion by errors, cancellation with pending handlers, "
          "stream completion); free workloads add volume; scripted scenarios (a send failing after the sender's health "
          "check, a context ending during the write, a stream replaced behind the receiver) x 9 call kinds end with a census "
-         "of per-call goroutines and router tables.",
-    ref="DESIGN.md 5 C18, 3.0 (Routing), 3.2", note=PROG_NOTE, technique=ROUTE_TECH)
+         "of per-call goroutines and router tables. Every program is recorded with the events of every layer and also "
+         "validated event by event against the composition Gorums.tla (GorumsTrace.tla).",
+    ref="DESIGN.md 5 C18, 3.0 (Routing), 3.2, 3.5", note=PROG_NOTE, technique=ROUTE_TECH)
 
 CHECKS["C07"] = dict(
     engine="calls", category="fault_enumeration",
